@@ -148,13 +148,12 @@ class Scipy(AbstractIntegrator):
             tuple[float | None, ArrayLike | None]: Tuple containing the final time point and the integrated values at steady state.
 
         """
-        self.reset()
-
         # If rhs returns a tuple, we get weird errors, so we need
         # to wrap this in a list for some reason
         integ = spi.ode(lambda t, x: list(self.rhs(t, x)), jac=self.jacobian)
         integ.set_integrator(name=self.method)
-        integ.set_initial_value(self.y0)
+        # Continue from the state and time reached so far
+        integ.set_initial_value(self.y0, self.t0)
 
         t = self.t0 + step_size
         y1 = copy.deepcopy(self.y0)
@@ -162,6 +161,8 @@ class Scipy(AbstractIntegrator):
             y2 = integ.integrate(t)
             diff = (y2 - y1) / y1 if rel_norm else y2 - y1
             if np.linalg.norm(diff, ord=2) < tolerance:
+                self.t0 = t
+                self.y0 = np.array(y2, dtype=float)
                 return Result(
                     TimeCourse(
                         time=np.array([t], dtype=float),
